@@ -1,4 +1,46 @@
 import Tfv.Model
+import Tfv.Proofs.Uri
+/-!
+# C14 — type URIs round-trip and identify types uniquely (URI half; the text half is in C14Text)
+Statements only.
+-/
 namespace Tfv.C14
-theorem placeholder : True := trivial
+open Tfv
+
+/-- names as `Language.add` forces them: distinct among all operators of the language
+(builtins included: reserved names cannot be reused) -/
+def DistinctNames (L : Lang) : Prop :=
+  ∀ i j, i < L.length → j < L.length → nameOf L i = nameOf L j → i = j
+
+/-- every operator name resolves to its own index -/
+theorem C14_resolve (L : Lang) (hn : DistinctNames L) (h5 : 5 ≤ L.length) (o : Nat) (ho : o < L.length) :
+    resolveName L (nameOf L o) = some o :=
+  resolveName_nameOf L hn h5 o ho
+
+/-- decoding the token list of a well-formed type gives the type back -/
+theorem C14_uri_roundtrip_toks (L : Lang) (hn : DistinctNames L) (h5 : 5 ≤ L.length) (t : Ty) (ht : wfTy L t = true) :
+    decodeToks L (uriToks L t) = .ok t :=
+  decodeToks_uriToks L hn h5 t ht
+
+/-- two different well-formed types never have the same token list, hence never the same URI -/
+theorem C14_uri_injective (L : Lang) (hn : DistinctNames L) (h5 : 5 ≤ L.length) (s t : Ty)
+    (hs : wfTy L s = true) (ht : wfTy L t = true) (h : uriToks L s = uriToks L t) : s = t :=
+  uriToks_injective L hn h5 s t hs ht h
+
+/-- the decoder never accepts a token list that is not the token list of its result:
+whatever it returns re-encodes to the input (so URIs and types correspond one to one) -/
+theorem C14_decode_sound (L : Lang) (hn : DistinctNames L) (h5 : 5 ≤ L.length) (toks : List String) (t : Ty)
+    (h : decodeToks L toks = .ok t) : uriToks L t = toks :=
+  uriToks_of_decodeToks L toks t h
+
+def exL : Lang := builtinDecls ++ [⟨"A", [], none⟩, ⟨"B", [], some 5⟩, ⟨"F", [true], none⟩, ⟨"G", [true, true], none⟩]
+example : uriLocal exL (.app 8 [.app 8 [.app 6 [], .app 5 []], .app 7 [.app 5 []]]) = "G-G-B-A-F-A" := by decide
+-- `String.splitOn` does not reduce in the kernel and `Ty` has no `DecidableEq`, so the kernel-checked
+-- example is stated on the token list; the string-level decoder is checked by evaluation (`#guard`).
+example : decodeToks exL ["G", "G", "B", "A", "F", "A"]
+    = .ok (.app 8 [.app 8 [.app 6 [], .app 5 []], .app 7 [.app 5 []]]) := by rfl
+#guard (match decodeUri exL "G-G-B-A-F-A" with
+  | .ok t => t == .app 8 [.app 8 [.app 6 [], .app 5 []], .app 7 [.app 5 []]]
+  | .error _ => false)
+
 end Tfv.C14
